@@ -118,6 +118,67 @@ func TestC11(t *testing.T) {
 			os.Remove(in)
 		}
 	})
+	// two input files of unequal length (results of a distributed attack): the report covers all of them.
+	// Inputs are read round robin until the shorter one is exhausted, then the rest of the longer one.
+	two := 0
+	for si := nShort; si < len(sets); si++ {
+		lats := sets[si]
+		for _, cutAt := range []int{1, len(lats) / 10, len(lats) / 2} {
+			if cutAt < 1 || cutAt >= len(lats) {
+				continue
+			}
+			a, b := lats[:cutAt], lats[cutAt:]
+			mk := func(ls []time.Duration, base int) []vegeta.Result {
+				rs := make([]vegeta.Result, len(ls))
+				for i, l := range ls {
+					rs[i] = vegeta.Result{Attack: "a", Seq: uint64(base + i), Code: 200, Timestamp: t0.Add(time.Duration(base+i) * time.Millisecond), Latency: l, BytesIn: 1, Method: "GET", URL: "http://h/"}
+				}
+				return rs
+			}
+			ra, rb := mk(a, 0), mk(b, cutAt)
+			var m vegeta.Metrics
+			for i := 0; i < len(ra) || i < len(rb); i++ {
+				if i < len(ra) {
+					r := ra[i]
+					m.Add(&r)
+				}
+				if i < len(rb) {
+					r := rb[i]
+					m.Add(&r)
+				}
+			}
+			m.Close()
+			var want bytes.Buffer
+			vegeta.NewJSONReporter(&m).Report(&want)
+			fa, fb := filepath.Join(dir, "c11-two-a"), filepath.Join(dir, "c11-two-b")
+			var ba, bb bytes.Buffer
+			ea, eb := vegeta.NewEncoder(&ba), vegeta.NewJSONEncoder(&bb)
+			for i := range ra {
+				ea.Encode(&ra[i])
+			}
+			for i := range rb {
+				eb.Encode(&rb[i])
+			}
+			os.WriteFile(fa, ba.Bytes(), 0o644)
+			os.WriteFile(fb, bb.Bytes(), 0o644)
+			out := filepath.Join(dir, "c11-two-out")
+			err := report([]string{fa, fb}, "json", out, 0, "")
+			got, _ := os.ReadFile(out)
+			two++
+			R.Eval(1)
+			R.Trans(len(lats) + 1)
+			R.Distinct(fmt.Sprint("two", si, cutAt))
+			ctx := map[string]any{"latency_set": si - nShort, "results_in_first_file": cutAt, "results_in_second_file": len(b)}
+			if err != nil {
+				ctx["error"] = err.Error()
+				R.Violation("report-command:two-files:fails", ctx)
+			} else if !bytes.Equal(got, want.Bytes()) {
+				ctx["command"], ctx["library"] = ev.Trunc(string(got), 700), ev.Trunc(want.String(), 700)
+				R.Violation("report-command:two-files:percentiles-differ-from-the-library", ctx)
+			}
+		}
+	}
+	R.Part("cmd", "two-file reports", two)
 	R.State(len(sets))
 	R.Part("cmd", "latency sets", len(sets))
 	R.Finish(t)
